@@ -383,6 +383,15 @@ pub fn gen_wild_level(u: &mut Un, names: &mut Names, depth: usize) -> Level {
                 }
                 cmds.push(c);
             }
+            // the same command offered twice (same name and help, another body): listed once
+            if u.chance(25) {
+                if let Some(Node::Cmd(first)) = cmds.iter().find(|c| matches!(c, Node::Cmd(_))).cloned() {
+                    let mut twin = (*first).clone();
+                    twin.level = gen_wild_level(u, names, depth + 1);
+                    twin.level.info = first.level.info.clone();
+                    cmds.push(Node::Cmd(Box::new(twin)));
+                }
+            }
             let alt = if cmds.len() == 1 && u.bool() {
                 cmds.pop().unwrap()
             } else {
